@@ -207,13 +207,14 @@ pub fn gen_xml_text(rng: &mut Rng, fragment: bool) -> String {
         let mut r2 = rng.fork();
         let n = r2.range(0, 3);
         let mut last_text = false;
+        let mut ids = 100u32;
         for _ in 0..n {
             if r2.pct(40) && !last_text {
                 // top-level character data of a fragment, also as text next to CDATA sections
                 absdoc::render_content(&absdoc::AContent::Text(r2.pick_str(&TEXTS).to_string()), &mut out, &mut cdata);
                 last_text = true;
             } else {
-                let e = absdoc::gen_elem(&mut r2, &cfg, &vec![], 1, &mut 100);
+                let e = absdoc::gen_elem(&mut r2, &cfg, &vec![], 1, &mut ids);
                 absdoc::render_elem(&e, &mut out, &mut cdata);
                 last_text = false;
             }
@@ -300,6 +301,19 @@ pub fn scope_bound_uris(m: &Model, e: Lid) -> Vec<String> {
 /// a nested element, repair that element; or the same with a subtree moved away in between
 pub fn gen_motif(m: &Model, rng: &mut Rng, home: &[Lid]) -> Option<Vec<Op>> {
     let p = Picker::new(m, home, 50);
+    if rng.pct(30) {
+        // an element whose only declaration is the (legal, redundant) built-in pair, with content
+        // after it that depends on the scope around it; then the tree is repaired and written
+        let e = p.of(rng, |l| m.k(l) == K::Elem && m.n(l).ns.is_empty() && m.next_kid(l).is_some())?;
+        let root = m.root_of(e);
+        let mut ops = vec![Op::NsInsert { e, prefix: "xml".into(), uri: absdoc::XML_NS.into() }];
+        if rng.pct(50) {
+            let parent = m.n(e).parent?;
+            ops.push(Op::AppendElement { p: parent, name: Nm::new(rng.pick_str(&LOCALS), rng.pick_str(&URIS)) });
+        }
+        ops.push(Op::CreateMissingPrefixes { n: root });
+        return Some(ops);
+    }
     let e = p.of(rng, |l| m.k(l) == K::Elem && m.n(l).parent.is_some() && m.n(l).kids.iter().any(|k| m.k(*k) == K::Elem))?;
     let root = m.root_of(e);
     let fresh = Nm::new(rng.pick_str(&LOCALS), rng.pick_str(&URIS));
@@ -608,7 +622,12 @@ fn try_gen_op(m: &Model, rng: &mut Rng, prof: &Profile, home: &[Lid]) -> Option<
         7 => {
             let e = p.kind(rng, K::Elem)?;
             Some(if rng.pct(60) {
-                let name = attr_key(m, e, rng);
+                let mut name = attr_key(m, e, rng);
+                if !prof.representable_ns_only && rng.pct(4) {
+                    // a name in the namespace reserved for declarations: the API lets it be built,
+                    // XML cannot express it
+                    name = Nm::new(rng.pick_str(&["p", "a", "xmlns"]), "http://www.w3.org/2000/xmlns/");
+                }
                 // now and then an update that writes the value the key already has
                 let same_value = m.n(e).attrs.iter().find_map(|a| match &m.n(*a).kind {
                     crate::model::Kind::Attr(n, v) if *n == name => Some(v.clone()),
@@ -677,7 +696,8 @@ fn try_gen_op(m: &Model, rng: &mut Rng, prof: &Profile, home: &[Lid]) -> Option<
                         if rng.pct(50) {
                             Op::RemoveNamespace { e, prefix }
                         } else {
-                            Op::AppendNamespace { p: e, prefix, uri }
+                            // (also on nodes that cannot carry a declaration: must be refused)
+                            Op::AppendNamespace { p: if fault { p.any(rng)? } else { e }, prefix, uri }
                         }
                     }
                     _ => Op::NsEntry { e, prefix, mode: entry_mode(rng), uri },
